@@ -14,7 +14,7 @@ import (
 // function's parameters that feed the condition.
 type guard struct {
 	fn      *ssa.Function
-	iff     *ssa.If  // nil for a final `return <cond>`
+	iff     *ssa.If // nil for a final `return <cond>`
 	ret     *ssa.Return
 	decider string   // e.g. "pedersen.Parameters.Verify", "arith.IsInIntervalLEps", "!= nil"
 	fields  []string // e.g. "p.Z1", "public.Aux"
@@ -134,9 +134,9 @@ func shortFuncName(o *types.Func) string {
 			if n.Obj().Pkg() != nil {
 				pk = n.Obj().Pkg().Name() + "."
 			}
-			return pk + n.Obj().Name() + "." + o.Name()
+			return pk + n.Obj().Name() + "." + canonName(o)
 		}
-		return o.Name()
+		return canonName(o)
 	}
 	if o.Pkg() != nil {
 		return o.Pkg().Name() + "." + o.Name()
